@@ -175,7 +175,10 @@ Fixpoint first_some {A} (l : list (option A)) : option A :=
 (* each rule: Some t when it applies *)
 Definition ra_const_shl (a b : term) : option term :=
   match and_const_shl_view a b with
-  | Some (c, s, y) => Some (TOp2 SHL (TConst s) (mk2 AND (TConst (wshr s c)) y))   (* c & (y << s) = ((c >> s) & y) << s *)
+  | Some (c, s, y) =>
+    (* c & (y << s) = ((c >> s) & y) << s ; the mask is dropped when it keeps every bit that survives the shift *)
+    if Z.land (wshr s c) (Z.ones (256 - s)) =? Z.ones (256 - s) then Some (TOp2 SHL (TConst s) y)
+    else Some (TOp2 SHL (TConst s) (mk2 AND (TConst (wshr s c)) y))
   | None => None
   end.
 Definition ra_and_r (a b : term) : option term :=      (* X & (X & Y) = X & Y *)
@@ -420,6 +423,14 @@ Fixpoint ins_sstore (k v s : term) : term :=
   | _ => SStore s k v
   end.
 
+(* a byte store makes the earlier byte stores at the same offset term dead (word stores below are kept) *)
+Fixpoint drop_same8 (a : term) (m : term) : term :=
+  match m with
+  | MStore8 m' a' v => if term_eqb a a' then drop_same8 a m' else MStore8 (drop_same8 a m') a' v
+  | MStore m' a' v => MStore (drop_same8 a m') a' v
+  | _ => m
+  end.
+
 (* a store that writes back what is already there is dropped *)
 Definition s_mstore (m a v : term) : term :=
   match v with
@@ -443,7 +454,7 @@ Fixpoint norm (t : term) : term :=
   | TSload s k => s_sload (norm s) (norm k)
   | TKeccak m a n => s_keccak (norm m) (norm a) (norm n)
   | MStore m a v => s_mstore (norm m) (norm a) (norm v)
-  | MStore8 m a v => ins_store false (norm a) (norm v) (norm m)
+  | MStore8 m a v => ins_store false (norm a) (norm v) (drop_same8 (norm a) (norm m))
   | SStore s k v => s_sstore (norm s) (norm k) (norm v)
   end.
 
